@@ -67,13 +67,41 @@ def source_tokens(src, lo, hi, rewrites=(), keep_attrs=(), d2=False, stub=None):
                 i = k + 1
                 continue
             name = next((x.text for x in toks[i:end] if x.kind == 'id'), '')
-            if name in KEEP_ATTRS or name in keep_attrs:
+            if name in KEEP_ATTRS or name in keep_attrs or not (d2 or _leading(out)):
                 out += [x.text for x in toks[i:end]]
             i = end
             continue
         out.append(t.text)
         i += 1
     return out
+
+
+def _leading(out):
+    """True while only (kept) attributes have been emitted so far: D1 applies to the item's own attributes, and to the inner
+    attributes of enums / structs (d2); attributes inside fn / macro bodies are copied verbatim"""
+    depth = 0
+    i = 0
+    n = len(out)
+    while i < n:
+        if out[i] == '#' and i + 1 < n and out[i + 1] == '[':
+            depth = 0
+            j = i + 1
+            while j < n:
+                if out[j] == '[':
+                    depth += 1
+                elif out[j] == ']':
+                    depth -= 1
+                    if depth == 0:
+                        break
+                j += 1
+            i = j + 1
+            continue
+        return False
+    return True
+
+
+def _is_attr_only(out):
+    return [True]
 
 
 def check(generated_text, items, sources):
